@@ -33,15 +33,16 @@ Proof.
 Qed.
 
 (* ---------------------------------------------------------------- the cell has the property *)
-Lemma In_dropped tr : dropped tr = true -> In (DropState, ODone) tr.
+Lemma subscribed_In s tr : (exists h, In (Subscribe h, OSub s) tr) -> subscribed s tr = true.
 Proof.
-  unfold dropped. intros H. apply existsb_exists in H as (e & Hin & He).
-  destruct e as [[] []]; try discriminate. exact Hin.
+  intros [h H]. unfold subscribed. apply existsb_exists. eexists; split; eauto. cbn. apply Nat.eqb_refl.
 Qed.
 
-Lemma subscribed_In s tr : In (Subscribe, OSub s) tr -> subscribed s tr = true.
+Lemma nlive_exists A (l : list (option A)) : nlive l <> 0%nat -> exists s x, nth_error l s = Some (Some x).
 Proof.
-  intros H. unfold subscribed. apply existsb_exists. eexists; split; eauto. cbn. apply Nat.eqb_refl.
+  induction l as [|[x|] l IH]; cbn; intros H; [lia| |].
+  - exists 0%nat, x. reflexivity.
+  - destruct (IH H) as (s & x & E). exists (S s), x. exact E.
 Qed.
 
 Section Cell.
@@ -55,7 +56,7 @@ Proof. apply Inv_trace. Qed.
 
 Lemma cell_sublist : sublist (received s tr) (sets_after s tr).
 Proof.
-  destruct cell_inv as [(Ho & Ha & Hrx & Hsub & Hrec & Hdead & Hlive) _].
+  destruct cell_inv as [(Hrx & Hsub & Hrec & Hdead & Hlive) _].
   destruct (nth_error (subs st) s) as [[k|]|] eqn:E.
   - eapply sub_ok_sublist. eapply Hlive; eauto.
   - now apply Hdead.
@@ -82,14 +83,39 @@ Proof.
   destruct (k <? a_n (ch st)); rewrite H; [congruence|]. destruct (a_open (ch st)); discriminate.
 Qed.
 
-Lemma cell_end : next abs_impl ops (Poll s) = OEnd -> In (DropState, ODone) tr.
+(* the cell is open exactly while some handle exists *)
+Lemma cell_open_live : a_open (ch st) = true -> exists h, handle_live h tr = true.
+Proof.
+  destruct cell_inv as (_ & HH & HT & _). fold st in HH, HT.
+  unfold a_open. rewrite HT. intros H.
+  destruct (nlive_exists _ (handles st)) as (h & g & E).
+  { destruct (nlive (handles st)); [discriminate|lia]. }
+  exists h. apply (InvH_live _ _ h HH). eauto.
+Qed.
+
+Lemma cell_closed_dead : a_open (ch st) = false -> forall h, handle_live h tr = false.
+Proof.
+  destruct cell_inv as (_ & HH & HT & _). fold st in HH, HT.
+  unfold a_open. rewrite HT. intros H h.
+  destruct (handle_live h tr) eqn:E; auto.
+  apply (InvH_live _ _ h HH) in E as [g E]. pose proof (nlive_pos _ _ _ E).
+  destruct (nlive (handles st)); [lia|discriminate].
+Qed.
+
+Lemma cell_end : next abs_impl ops (Poll s) = OEnd -> forall h, handle_live h tr = false.
 Proof.
   pose proof cell_poll_cases as H.
-  destruct cell_inv as [(Ho & Ha & _) _]. fold st in Ho, Ha.
   destruct (nth_error (subs st) s) as [[k|]|]; try (rewrite H; discriminate).
   destruct (k <? a_n (ch st)); rewrite H; [discriminate|].
-  destruct (a_open (ch st)) eqn:Eo; [discriminate|]. intros _.
-  apply In_dropped. rewrite <- Ho in Ha. destruct (dropped tr); auto; discriminate.
+  destruct (a_open (ch st)) eqn:Eo; [discriminate|]. intros _. now apply cell_closed_dead.
+Qed.
+
+Lemma cell_pending : next abs_impl ops (Poll s) = OPending -> exists h, handle_live h tr = true.
+Proof.
+  pose proof cell_poll_cases as H.
+  destruct (nth_error (subs st) s) as [[k|]|]; try (rewrite H; discriminate).
+  destruct (k <? a_n (ch st)); rewrite H; [discriminate|].
+  destruct (a_open (ch st)) eqn:Eo; [|discriminate]. intros _. now apply cell_open_live.
 Qed.
 
 Lemma cell_latest :
@@ -97,17 +123,18 @@ Lemma cell_latest :
   last_opt (received s tr) = last_opt (sets_after s tr).
 Proof.
   pose proof cell_poll_cases as H.
-  destruct cell_inv as [(_ & _ & _ & _ & _ & _ & Hlive) _]. fold st in Hlive.
+  destruct cell_inv as [(_ & _ & _ & _ & Hlive) _]. fold st in Hlive.
   destruct (nth_error (subs st) s) as [[k|]|] eqn:E; try (rewrite H; intros [X|X]; discriminate).
   destruct (Z.ltb_spec k (a_n (ch st))) as [L|L]; rewrite H; [intros [X|X]; discriminate|].
   intros _. destruct (Hlive _ _ E) as (Le & Hup & _). apply Hup. lia.
 Qed.
 
 Lemma cell_gone :
-  next abs_impl ops (Poll s) = OGone -> ~ In (Subscribe, OSub s) tr \/ In (DropSub s, ODone) tr.
+  next abs_impl ops (Poll s) = OGone ->
+  ~ (exists h, In (Subscribe h, OSub s) tr) \/ In (DropSub s, ODone) tr.
 Proof.
   pose proof cell_poll_cases as H.
-  destruct cell_inv as [(_ & _ & _ & Hsub & _ & Hdead & _) _]. fold st in Hsub, Hdead.
+  destruct cell_inv as [(_ & Hsub & _ & Hdead & _) _]. fold st in Hsub, Hdead.
   destruct (nth_error (subs st) s) as [[k|]|] eqn:E.
   - destruct (k <? a_n (ch st)); rewrite H; [discriminate|]. destruct (a_open (ch st)); discriminate.
   - intros _. right. now apply Hdead.
@@ -132,39 +159,69 @@ Qed.
 
 Lemma cell_no_panic o : next abs_impl ops o <> OPanic /\ next abs_impl ops o <> OFuel.
 Proof.
-  destruct cell_inv as [_ HN]. fold st in HN.
-  unfold next. fold st. destruct st as [v al c l nf oc]; cbn [notifier onc] in HN.
-  destruct o as [x| |t|t| |x| |]; cbn [step abs_impl alive ch subs notifier onc value
-     ch_set ch_sub ch_poll ch_droprx ch_close on_notify on_drop on_poll].
-  - destruct al; cbn; split; discriminate.
-  - destruct al; cbn; split; discriminate.
+  destruct cell_inv as (_ & _ & _ & HN). fold st in HN.
+  unfold next. fold st. destruct st as [hs c l nf oc]; cbn [notifier onc] in HN.
+  destruct o as [h x|h|h|t|t|h|h|x| |]; cbn [step abs_impl handles ch subs notifier onc
+     ch_set ch_sub ch_poll ch_droprx ch_clone ch_droptx on_notify on_drop on_poll].
+  - destruct (nth_error hs h) as [[g|]|]; cbn; split; discriminate.
+  - destruct (nth_error hs h) as [[g|]|]; cbn; split; discriminate.
+  - destruct (nth_error hs h) as [[g|]|]; cbn; split; discriminate.
   - destruct (nth_error l t) as [[k|]|]; try (cbn; split; discriminate).
     unfold a_poll. destruct (k <? a_n c); cbn; [split; discriminate|].
     destruct (a_open c); split; discriminate.
   - destruct (nth_error l t) as [[k|]|]; cbn; split; discriminate.
-  - destruct al; cbn; split; discriminate.
+  - destruct (nth_error hs h) as [[g|]|]; cbn; split; discriminate.
+  - destruct (nth_error hs h) as [[g|]|]; cbn; split; discriminate.
   - destruct nf; [|cbn; split; discriminate]. rewrite (HN eq_refl). cbn. split; discriminate.
   - destruct nf; cbn; split; discriminate.
   - destruct oc; cbn; split; discriminate.
 Qed.
 
-Lemma cell_set v :
-  next abs_impl ops (Set_ v) = OSet v \/
-  (next abs_impl ops (Set_ v) = OGone /\ In (DropState, ODone) tr).
+(* operations through a handle: gone exactly when the handle does not exist; set stores and
+   returns the value; get returns this handle's own copy *)
+Lemma handle_op_gone (t : state abs_impl) o h : handle_of o = Some h ->
+  (snd (step abs_impl t o) = OGone <-> forall g, nth_error (handles t) h <> Some (Some g)).
 Proof.
-  destruct cell_inv as [(Ho & Ha & _) _]. fold st in Ho, Ha.
-  unfold next. fold st. cbn [step abs_impl ch_set].
-  destruct (alive st) eqn:Ea; cbn; auto.
-  right. split; auto. apply In_dropped. destruct (dropped tr); auto; discriminate.
+  intros Ho. destruct o; cbn in Ho; try discriminate; injection Ho as ->;
+    cbn [step abs_impl ch_set ch_sub ch_clone ch_droptx a_set a_sub];
+    destruct (nth_error (handles t) h) as [[g|]|]; cbn [snd]; split; intros X; try discriminate;
+    try reflexivity; try (intros g' Y; discriminate); exfalso; eapply X; reflexivity.
+Qed.
+
+Lemma cell_handle h :
+  (forall o, handle_of o = Some h ->
+             (next abs_impl ops o = OGone <-> handle_live h tr = false)) /\
+  (handle_live h tr = true ->
+   (forall v, next abs_impl ops (Set_ h v) = OSet v) /\
+   (exists g, nth_error (hvals tr) h = Some g /\ next abs_impl ops (Get h) = OGet g)).
+Proof.
+  destruct cell_inv as (_ & HH & _ & _). fold st in HH.
+  pose proof (InvH_live _ _ h HH) as HL. destruct HH as (_ & _ & _ & Hv).
+  unfold next. fold st. split.
+  - intros o Ho. rewrite (handle_op_gone st o h Ho). split.
+    + intros X. destruct (handle_live h tr) eqn:Y; auto. destruct (proj1 HL eq_refl) as [g Yg].
+      exfalso. eapply X; eauto.
+    + intros X g Y. assert (handle_live h tr = true) by (apply HL; eauto). congruence.
+  - intros L. apply HL in L as [g E]. split.
+    + intros v. cbn [step abs_impl ch_set]. rewrite E. reflexivity.
+    + exists g. split; [now apply Hv|]. cbn [step]. rewrite E. reflexivity.
 Qed.
 End Cell.
 
+(* polls do not touch the handles *)
+Lemma handle_live_poll h tr s o : handle_live h (tr ++ [(Poll s, o)]) = handle_live h tr.
+Proof.
+  rewrite !handle_live_eq, created_snoc, hdropped_snoc. cbn. now rewrite !orb_false_r.
+Qed.
+
 (* polling until nothing is left takes at most two polls and ends with the last value set *)
 Lemma cell_converges ops s :
-  In (Subscribe, OSub s) (trace abs_impl ops) -> ~ In (DropSub s, ODone) (trace abs_impl ops) ->
+  (exists h, In (Subscribe h, OSub s) (trace abs_impl ops)) ->
+  ~ In (DropSub s, ODone) (trace abs_impl ops) ->
   exists o1 o2,
     run abs_impl (ops ++ [Poll s; Poll s]) = run abs_impl ops ++ [o1; o2] /\
-    (o2 = OPending \/ (o2 = OEnd /\ In (DropState, ODone) (trace abs_impl ops))) /\
+    ((o2 = OPending /\ exists h, handle_live h (trace abs_impl ops) = true) \/
+     (o2 = OEnd /\ forall h, handle_live h (trace abs_impl ops) = false)) /\
     last_opt (received s (trace abs_impl (ops ++ [Poll s; Poll s]))) =
     last_opt (sets_after s (trace abs_impl ops)).
 Proof.
@@ -188,14 +245,15 @@ Proof.
       + rewrite P in S. destruct S.
       + rewrite P. destruct (a_open (ch (final abs_impl ops1))); auto.
     - exfalso. destruct (G P) as [X|X].
-      + apply X. rewrite T1. apply in_or_app. now left.
+      + apply X. destruct Hsub as [h Hs]. exists h. rewrite T1. apply in_or_app. now left.
       + apply In1 in X as [X|X]; [auto|discriminate].
     - exfalso. destruct (G P) as [X|X].
-      + apply X. rewrite T1. apply in_or_app. now left.
+      + apply X. destruct Hsub as [h Hs]. exists h. rewrite T1. apply in_or_app. now left.
       + apply In1 in X as [X|X]; [auto|discriminate]. }
   split.
-  { destruct C as [C|C]; auto. right. split; auto.
-    pose proof (cell_end ops1 s) as E. fold o2 in E. apply E, In1 in C as [X|X]; [auto|discriminate]. }
+  { destruct C as [C|C]; [left|right]; split; auto.
+    - destruct (cell_pending ops1 s C) as [h Hh]. exists h. now rewrite T1, handle_live_poll in Hh.
+    - intros h. pose proof (cell_end ops1 s C h) as Hh. now rewrite T1, handle_live_poll in Hh. }
   pose proof (cell_latest ops1 s) as L. fold o2 in L.
   rewrite T2, received_app.
   assert (R0 : received s [(Poll s, o2)] = []) by (destruct C as [-> | ->]; reflexivity).
@@ -210,14 +268,16 @@ Lemma frame_once (st : state abs_impl) o :
   | _ => notifier (fst (step abs_impl st o)) = notifier st /\ onc (fst (step abs_impl st o)) = onc st
   end.
 Proof.
-  destruct st as [v al c l nf oc].
-  destruct o as [x| |t|t| |x| |]; cbn [step abs_impl alive ch subs notifier onc value
-     ch_set ch_sub ch_poll ch_droprx ch_close]; auto.
-  - destruct al; cbn; auto.
-  - destruct al; cbn; auto.
+  destruct st as [hs c l nf oc].
+  destruct o as [h x|h|h|t|t|h|h|x| |]; cbn [step abs_impl handles ch subs notifier onc
+     ch_set ch_sub ch_poll ch_droprx ch_clone ch_droptx]; auto.
+  - destruct (nth_error hs h) as [[g|]|]; cbn; auto.
+  - destruct (nth_error hs h) as [[g|]|]; cbn; auto.
+  - destruct (nth_error hs h) as [[g|]|]; cbn; auto.
   - destruct (nth_error l t) as [[k|]|]; cbn; auto. destruct (a_poll c k) as [[? ?] ?]. cbn. auto.
   - destruct (nth_error l t) as [[k|]|]; cbn; auto.
-  - destruct al; cbn; auto.
+  - destruct (nth_error hs h) as [[g|]|]; cbn; auto.
+  - destruct (nth_error hs h) as [[g|]|]; cbn; auto.
 Qed.
 
 Definition otrace (st : state abs_impl) (ops : list op) : list out :=
@@ -240,7 +300,7 @@ Proof.
   induction ops as [|o ops IH]; intros st Hn Ho; [reflexivity|].
   rewrite otrace_cons, npolls_cons.
   pose proof (frame_once st o) as F.
-  destruct st as [v al c l nf oc]; cbn [notifier onc] in *. subst nf.
+  destruct st as [hs c l nf oc]; cbn [notifier onc] in *. subst nf.
   destruct o; try (destruct F as [F1 F2]; cbn [is_pollonce app Nat.add]; apply IH; [rewrite F1|rewrite F2]; auto).
   - cbn. apply IH; auto.
   - cbn. apply IH; auto.
@@ -254,7 +314,7 @@ Proof.
   induction ops as [|o ops IH]; intros st v Hn Ho; [reflexivity|].
   rewrite otrace_cons, npolls_cons.
   pose proof (frame_once st o) as F.
-  destruct st as [w al c l nf oc]; cbn [notifier onc] in *. subst nf oc.
+  destruct st as [hs c l nf oc]; cbn [notifier onc] in *. subst nf oc.
   destruct o; try (destruct F as [F1 F2]; cbn [is_pollonce app Nat.add]; apply IH; [rewrite F1|rewrite F2]; auto).
   - cbn. apply IH; auto.
   - cbn. apply IH; auto.
@@ -268,7 +328,7 @@ Proof.
   induction ops as [|o ops IH]; intros st Hn Ho; [reflexivity|].
   rewrite otrace_cons.
   pose proof (frame_once st o) as F.
-  destruct st as [w al c l nf oc]; cbn [notifier onc] in *. subst nf oc.
+  destruct st as [hs c l nf oc]; cbn [notifier onc] in *. subst nf oc.
   destruct o; try (destruct F as [F1 F2]; cbn [is_pollonce app once_expect]; apply IH; [rewrite F1|rewrite F2]; auto).
   - cbn [is_pollonce app once_expect step abs_impl on_notify notifier onc ao_notify fst snd].
     apply once_armed; cbn; auto.
@@ -315,26 +375,41 @@ Theorem subsequence_latest ops s :
   let tr := trace I ops in
   sublist (received s tr) (sets_after s tr) /\
   (forall v c, next I ops (Poll s) = OItem v c -> c = CTrue) /\
-  (next I ops (Poll s) = OEnd -> In (DropState, ODone) tr) /\
+  (next I ops (Poll s) = OEnd -> forall h, handle_live h tr = false) /\
+  (next I ops (Poll s) = OPending -> exists h, handle_live h tr = true) /\
   (next I ops (Poll s) = OPending \/ next I ops (Poll s) = OEnd ->
    last_opt (received s tr) = last_opt (sets_after s tr)) /\
   match next I (ops ++ [Poll s]) (Poll s) with OItem _ _ => False | _ => True end /\
-  (next I ops (Poll s) = OGone -> ~ In (Subscribe, OSub s) tr \/ In (DropSub s, ODone) tr) /\
-  (forall v, next I ops (Set_ v) = OSet v \/
-             (next I ops (Set_ v) = OGone /\ In (DropState, ODone) tr)) /\
+  (next I ops (Poll s) = OGone ->
+   ~ (exists h, In (Subscribe h, OSub s) tr) \/ In (DropSub s, ODone) tr) /\
   (forall o, next I ops o <> OPanic /\ next I ops o <> OFuel).
 Proof.
   cbv zeta. rewrite m_trace, !m_next.
   split; [apply cell_sublist|]. split; [apply cell_continues|]. split; [apply cell_end|].
-  split; [apply cell_latest|]. split; [apply cell_settled|]. split; [apply cell_gone|].
-  split; [intros v; rewrite m_next; apply cell_set|]. intros o. rewrite m_next. apply cell_no_panic.
+  split; [apply cell_pending|]. split; [apply cell_latest|]. split; [apply cell_settled|].
+  split; [apply cell_gone|]. intros o. rewrite m_next. apply cell_no_panic.
+Qed.
+
+Theorem handles_any ops h :
+  let tr := trace I ops in
+  (forall o, handle_of o = Some h -> (next I ops o = OGone <-> handle_live h tr = false)) /\
+  (handle_live h tr = true ->
+   (forall v, next I ops (Set_ h v) = OSet v) /\
+   (exists g, nth_error (hvals tr) h = Some g /\ next I ops (Get h) = OGet g)).
+Proof.
+  cbv zeta. rewrite m_trace. destruct (cell_handle ops h) as [A B]. split.
+  - intros o Ho. rewrite m_next. now apply A.
+  - intros L. destruct (B L) as [B1 (g & B2 & B3)]. split.
+    + intros v. rewrite m_next. apply B1.
+    + exists g. rewrite m_next. auto.
 Qed.
 
 Theorem converges ops s :
-  In (Subscribe, OSub s) (trace I ops) -> ~ In (DropSub s, ODone) (trace I ops) ->
+  (exists h, In (Subscribe h, OSub s) (trace I ops)) -> ~ In (DropSub s, ODone) (trace I ops) ->
   exists o1 o2,
     run I (ops ++ [Poll s; Poll s]) = run I ops ++ [o1; o2] /\
-    (o2 = OPending \/ (o2 = OEnd /\ In (DropState, ODone) (trace I ops))) /\
+    ((o2 = OPending /\ exists h, handle_live h (trace I ops) = true) \/
+     (o2 = OEnd /\ forall h, handle_live h (trace I ops) = false)) /\
     last_opt (received s (trace I (ops ++ [Poll s; Poll s]))) =
     last_opt (sets_after s (trace I ops)).
 Proof. rewrite !m_trace, !HI. apply cell_converges. Qed.
@@ -362,15 +437,24 @@ Theorem subsequence_latest_models I : I = tokio_impl \/ I = smol_impl ->
   let tr := trace I ops in
   sublist (received s tr) (sets_after s tr) /\
   (forall v c, next I ops (Poll s) = OItem v c -> c = CTrue) /\
-  (next I ops (Poll s) = OEnd -> In (DropState, ODone) tr) /\
+  (next I ops (Poll s) = OEnd -> forall h, handle_live h tr = false) /\
+  (next I ops (Poll s) = OPending -> exists h, handle_live h tr = true) /\
   (next I ops (Poll s) = OPending \/ next I ops (Poll s) = OEnd ->
    last_opt (received s tr) = last_opt (sets_after s tr)) /\
   match next I (ops ++ [Poll s]) (Poll s) with OItem _ _ => False | _ => True end /\
-  (next I ops (Poll s) = OGone -> ~ In (Subscribe, OSub s) tr \/ In (DropSub s, ODone) tr) /\
-  (forall v, next I ops (Set_ v) = OSet v \/
-             (next I ops (Set_ v) = OGone /\ In (DropState, ODone) tr)) /\
+  (next I ops (Poll s) = OGone ->
+   ~ (exists h, In (Subscribe h, OSub s) tr) \/ In (DropSub s, ODone) tr) /\
   (forall o, next I ops o <> OPanic /\ next I ops o <> OFuel).
 Proof. intros H. apply subsequence_latest. now apply modelled. Qed.
+
+Theorem handles_models I : I = tokio_impl \/ I = smol_impl ->
+  forall (ops : list op) (h : nat),
+  let tr := trace I ops in
+  (forall o, handle_of o = Some h -> (next I ops o = OGone <-> handle_live h tr = false)) /\
+  (handle_live h tr = true ->
+   (forall v, next I ops (Set_ h v) = OSet v) /\
+   (exists g, nth_error (hvals tr) h = Some g /\ next I ops (Get h) = OGet g)).
+Proof. intros H. apply handles_any. now apply modelled. Qed.
 
 Theorem once_models I : I = tokio_impl \/ I = smol_impl ->
   forall (pre post : list op) (v : N), unresolved pre ->
@@ -384,10 +468,11 @@ Proof. intros H. apply once_exact. now apply modelled. Qed.
 
 Theorem converges_models I : I = tokio_impl \/ I = smol_impl ->
   forall (ops : list op) (s : nat),
-  In (Subscribe, OSub s) (trace I ops) -> ~ In (DropSub s, ODone) (trace I ops) ->
+  (exists h, In (Subscribe h, OSub s) (trace I ops)) -> ~ In (DropSub s, ODone) (trace I ops) ->
   exists o1 o2,
     run I (ops ++ [Poll s; Poll s]) = run I ops ++ [o1; o2] /\
-    (o2 = OPending \/ (o2 = OEnd /\ In (DropState, ODone) (trace I ops))) /\
+    ((o2 = OPending /\ exists h, handle_live h (trace I ops) = true) \/
+     (o2 = OEnd /\ forall h, handle_live h (trace I ops) = false)) /\
     last_opt (received s (trace I (ops ++ [Poll s; Poll s]))) =
     last_opt (sets_after s (trace I ops)).
 Proof. intros H. apply converges. now apply modelled. Qed.
